@@ -4,26 +4,33 @@ import (
 	"github.com/free5gc/nas/nasType"
 )
 
+// packGsm7bit packs 7-bit characters into octets as in TS 23.038 6.1.2.1:
+// the first character occupies the low bits of the first octet.
+func packGsm7bit(chars []byte) []uint8 {
+	var buf []uint8
+	var acc uint16
+	var nbits uint
+	for _, char := range chars {
+		acc |= uint16(char&0x7f) << nbits
+		nbits += 7
+		for nbits >= 8 {
+			buf = append(buf, uint8(acc))
+			acc >>= 8
+			nbits -= 8
+		}
+	}
+	if nbits > 0 {
+		buf = append(buf, uint8(acc))
+	}
+	return buf
+}
+
 // TS 24.501 9.11.3.35, TS 24.008 10.5.3.5a
 func FullNetworkNameToNas(name string) (fullNetworkName nasType.FullNameForNetwork) {
 	asciiArray := []byte(name)
-	numOfSpareBits := 8 - ((7 * len(asciiArray)) % 8)
+	numOfSpareBits := (8 - ((7 * len(asciiArray)) % 8)) % 8
 
-	var buf []uint8
-	idx := uint8(7)
-	for i, char := range asciiArray {
-		if i == 0 {
-			buf = append(buf, char)
-		} else {
-			buf[i-1] = (buf[i-1] & nasType.GetBitMask(idx+1, 0)) + char<<idx
-			buf = append(buf, char>>(8-idx))
-			idx--
-			// if idx overflow, it will round to max(uint8) == 255 == ^uint8(0)
-			if idx == ^uint8(0) {
-				idx = 7
-			}
-		}
-	}
+	buf := packGsm7bit(asciiArray)
 
 	fullNetworkName.SetLen(uint8(1 + len(buf)))
 	fullNetworkName.SetCodingScheme(0)
@@ -36,23 +43,9 @@ func FullNetworkNameToNas(name string) (fullNetworkName nasType.FullNameForNetwo
 
 func ShortNetworkNameToNas(name string) (shortNetworkName nasType.ShortNameForNetwork) {
 	asciiArray := []byte(name)
-	numOfSpareBits := 8 - ((7 * len(asciiArray)) % 8)
+	numOfSpareBits := (8 - ((7 * len(asciiArray)) % 8)) % 8
 
-	var buf []uint8
-	idx := uint8(7)
-	for i, char := range asciiArray {
-		if i == 0 {
-			buf = append(buf, char)
-		} else {
-			buf[i-1] = (buf[i-1] & nasType.GetBitMask(idx+1, 0)) + char<<idx
-			buf = append(buf, char>>(8-idx))
-			idx--
-			// if idx overflow, it will round to max(uint8) == 255 == ^uint8(0)
-			if idx == ^uint8(0) {
-				idx = 7
-			}
-		}
-	}
+	buf := packGsm7bit(asciiArray)
 
 	shortNetworkName.SetLen(uint8(1 + len(buf)))
 	shortNetworkName.SetCodingScheme(0)
